@@ -69,6 +69,8 @@ def cases(shard, tier):
             for sets in ('one-set', 'own-sets', 'first-two-share'):
                 for order in itertools.product(range(nobj), repeat=3):
                     yield {'part': 'samename', 'nobj': nobj, 'sets': sets, 'order': list(order)}
+                # a further add_no_format into the last object's set is refused because of its name (not a string)
+                yield {'part': 'samename', 'nobj': nobj, 'sets': sets, 'order': [0, nobj - 1, 0], 'then_rejected_name': True}
         return
     if shard['part'] == 'lfs':
         # several logical files, each with its own NO-FORMAT object (equally named: distinct set names) and 0..2
@@ -111,6 +113,8 @@ def samename_spec(case):
     for j, o in enumerate(case['order']):
         sp['ops'].append({'op': 'nfdata', 'lf': 'L0', 'nf': f'N{o}', 'h': f'R{j}',
                           'data': enc(('bytes', 'str', 'bytearray')[j % 3], payload(4 + j + 3 * o, 'plain', 7 * j + o))})
+    if case.get('then_rejected_name'):
+        sp['ops'].append(S.op_add('no_format', 'RJ', 5, expect='raise', **sn))
     return sp
 
 
@@ -149,7 +153,9 @@ def run_lfs(case):
         if len(lfs) != len(m.lfs):
             viol.append(("C16:lfs:count", f"{len(lfs)} logical files read, {len(m.lfs)} created | {case}"))
         for i, (mlf, lf) in enumerate(zip(m.lfs, lfs)):
-            for code, d in M.check_noformat(m, mlf, lf):
+            # (the records must also come under an object that IS in the file: inventory of the NO-FORMAT sets)
+            inv = [(c_, d_) for c_, d_ in M.check_inventory(m, mlf, lf) if 'NO-FORMAT' in d_]
+            for code, d in M.check_noformat(m, mlf, lf) + inv:
                 viol.append((f"C16:lfs:{code}", f"logical file {i}: {d} | {case}"))
     except R.FormatError as e:
         viol.append((f"C16:unparsable:{e.code}", f"{e} | {case}"))
